@@ -657,6 +657,10 @@ class Interp:
         body.conds.append((src_of(s.test), True))
         self._refine(s.test, body, fi, depth, True)
         body.loop_exits = []
+        cl = self._counter_loop(s, pre, st, fi, depth)
+        if cl is not None:
+            # `k = 0; while k < len(X): ... X[k] ...; k += 1` visits the elements of X in order, like `for e in X`
+            body.env[cl[0]] = mk_fn("loopidx", [as_value(cl[1])])
         self._loop_stack_push(body)
         self.exec_block(s.body, body, fi, depth)
         exits = self._loop_stack_pop()
@@ -674,6 +678,53 @@ class Interp:
         else:
             self._refine(s.test, st, fi, depth, False)
         self.exec_block(s.orelse, st, fi, depth)
+
+    def _counter_loop(self, s, pre_env, st, fi, depth):
+        """(counter name, sequence value) when the while loop is an index loop over one sequence"""
+        t = s.test
+        if not (isinstance(t, ast.Compare) and len(t.ops) == 1):
+            return None
+        if isinstance(t.ops[0], ast.Lt) and isinstance(t.left, ast.Name):
+            v, bound = t.left.id, t.comparators[0]
+        elif isinstance(t.ops[0], ast.Gt) and isinstance(t.comparators[0], ast.Name):
+            v, bound = t.comparators[0].id, t.left
+        else:
+            return None
+        init = pre_env.get(v)
+        if not (isinstance(init, Form) and init.is_zero()):
+            return None
+        incs = []
+        for n in ast.walk(ast.Module(body=list(s.body), type_ignores=[])):
+            if isinstance(n, (ast.Continue, ast.Break)):
+                return None
+            if isinstance(n, ast.Name) and n.id == v and isinstance(n.ctx, ast.Store):
+                incs.append(n)
+        last = s.body[-1] if s.body else None
+        if not (len(incs) == 1 and isinstance(last, ast.AugAssign) and isinstance(last.op, ast.Add) and last.target is incs[0]
+                and isinstance(last.value, ast.Constant) and last.value.value == 1):
+            return None
+        if any(isinstance(n, ast.Name) and n.id == v for n in ast.walk(bound)):
+            return None
+        tmp = State(fork_env(pre_env), st.facts.copy(), list(st.conds))
+        ncalls = len(self.calls)
+        try:
+            b = self.eval(bound, tmp, fi, depth)
+        except Exception:
+            return None
+        finally:
+            del self.calls[ncalls:]
+        if not isinstance(b, Form):
+            return None
+        a = b.single_atom()
+        if a is None or b != Form.atom(a):
+            return None
+        if a[0] == "attr" and a[2] == "size":
+            return v, a[1]
+        if a[0] == "fn" and a[1] in ("len", "size") and len(a[2]) == 1 and not a[3]:
+            return v, a[2][0]
+        if a[0] == "sym" and a[1].endswith(".size"):
+            return v, Form.sym(a[1][:-5])
+        return None
 
     def s_For(self, s, st, fi, depth):
         it = self.eval(s.iter, st, fi, depth)
@@ -1470,6 +1521,10 @@ class Interp:
             return base
         if isinstance(base, Form) and base.single_atom() in (("c", "numpy.s_"), ("c", "numpy.index_exp")):
             return idx  # np.s_[...] is the index expression itself
+        if isinstance(idx, Form):
+            ia = idx.single_atom()
+            if ia is not None and ia[0] == "fn" and ia[1] == "loopidx" and idx == Form.atom(ia) and vkey(ia[2][0]) == vkey(as_value(base)):
+                return iter_element(base)
         if isinstance(base, Form) and isinstance(idx, Form) and idx.rational() is not None:
             ev = elementwise_items(base, None)
             if ev is not None:
@@ -1739,16 +1794,24 @@ class Interp:
         return True
 
     def _call_func(self, callee: FuncInfo, args, kwargs, st, fi, depth, n, rec, closure=None, bound_self=None):
+        cargs, ckw = list(args), dict(kwargs)
+        if kwargs:
+            # canonical shape of the call: keyword arguments naming leading parameters become positional
+            params = [p for p in callee.params if not (bound_self is not None and p == "self")]
+            while len(cargs) < len(params) and params[len(cargs)] in ckw:
+                cargs.append(ckw.pop(params[len(cargs)]))
+            if rec is not None and getattr(rec, "node", None) is n:
+                rec.args, rec.kwargs = cargs, ckw
         if callee.qualname in ("utils.tic",):
             return NONE
         if callee.qualname in ("utils.toc",):
             return Form.atom(("fn", "toc", (), ()))
         if not self._should_inline(callee, depth):
             nm = callee.qualname.split(".", 1)[1] if callee.cls is None else callee.qualname
-            av = [as_value(a) for a in args]
+            av = [as_value(a) for a in cargs]
             if bound_self is not None:
-                return Form.atom(("meth", as_value(bound_self), callee.name, tuple(av), tuple(sorted((k, as_value(v)) for k, v in kwargs.items()))))
-            return mk_fn(nm, av, [(k, as_value(v)) for k, v in kwargs.items()])
+                return Form.atom(("meth", as_value(bound_self), callee.name, tuple(av), tuple(sorted((k, as_value(v)) for k, v in ckw.items()))))
+            return mk_fn(nm, av, [(k, as_value(v)) for k, v in ckw.items()])
         sub = State({}, st.facts.copy(), list(st.conds))
         if closure:
             for k, v in closure.items():
@@ -1940,6 +2003,14 @@ class Interp:
         if name in ("list", "tuple") and len(args) == 1:
             if isinstance(args[0], TupleV):
                 return TupleV(args[0].items, name)
+            if isinstance(args[0], Form):
+                a0 = args[0].single_atom()
+                if a0 is not None and a0[0] == "fn" and a0[1] == "listcomp":
+                    return args[0]
+        if name == "map" and len(args) == 2 and isinstance(args[0], FuncV) and not kwargs:
+            # map(f, xs) is the comprehension [f(x) for x in xs]
+            body = self._call_value(args[0], [iter_element(args[1])], {}, st, fi, depth, n, CallRec(n, None, [], {}, [], fi, depth, st.facts))
+            return mk_fn("listcomp", [as_value(body), as_value(args[1])])
         if name == "zip":
             return mk_fn("zip", [as_value(a) for a in args])
         if name == "range":
